@@ -303,3 +303,123 @@ Proof.
   - rewrite !fst_let. f_equal. now apply to_list_local.
   - now apply bk_list_local.
 Qed.
+
+(* ---------------------------------------------------------------- the produceKVs loop *)
+Section ProduceProofs.
+  Variable ktl : bytes -> list entry -> option (list entry) * list entry.
+  Variable choose : entry -> bool.
+  Hypothesis ktl_rest_ok : forall key its,
+    exists taken, its = taken ++ snd (ktl key its) /\ Forall (fun e => key_is key e = true) taken.
+
+  Definition deliver (e : entry) (its : list entry) : list (bytes * list entry) :=
+    if choose e then match fst (ktl (e_key e) its) with
+                     | Some (x :: l) => [(e_key e, x :: l)]
+                     | _ => []
+                     end
+    else [].
+
+  (* the same loop, structurally: one step per item; yields (key, KV list) *)
+  Fixpoint produce_k (right : bytes) (its : list entry) (prev : bytes) : list (bytes * list entry) :=
+    match its with
+    | [] => []
+    | e :: r =>
+        if bytes_eqb (e_key e) prev then produce_k right r prev
+        else if past_right right (e_key e) then []
+        else deliver e its ++ produce_k right r (e_key e)
+    end.
+
+  Lemma produce_k_skip right taken rest k :
+    Forall (fun e => key_is k e = true) taken ->
+    produce_k right (taken ++ rest) k = produce_k right rest k.
+  Proof.
+    induction 1 as [|e t He _ IH]; cbn [app produce_k]; auto.
+    unfold key_is in He. now rewrite He.
+  Qed.
+
+  Lemma produce_fuel_enough right : forall n its prev fuel,
+    (length its <= n)%nat ->
+    ((2 * length its + 1 <= fuel)%nat \/
+     ((2 * length its <= fuel)%nat /\ match its with e :: _ => bytes_eqb (e_key e) prev = true | [] => True end)) ->
+    produce ktl choose right fuel its prev = map snd (produce_k right its prev).
+  Proof.
+    induction n as [|n IH]; intros its prev fuel Hn Hf.
+    - destruct its; [|cbn in Hn; lia]. destruct fuel; reflexivity.
+    - destruct its as [|e r]; [destruct fuel; reflexivity|].
+      cbn [length] in Hn, Hf.
+      destruct fuel as [|f]; [exfalso; lia|].
+      cbn [produce produce_k].
+      destruct (bytes_eqb (e_key e) prev) eqn:Ep.
+      + apply IH; [lia|]. left. lia.
+      + assert (Hf1: (2 * S (length r) + 1 <= S f)%nat) by (destruct Hf as [H|[_ H]]; [exact H|discriminate]).
+        destruct (past_right right (e_key e)); [reflexivity|].
+        assert (Hhead: produce ktl choose right f (e :: r) (e_key e)
+                       = map snd (produce_k right r (e_key e))).
+        { destruct f as [|f']; [exfalso; lia|]. cbn [produce]. rewrite bytes_eqb_refl.
+          apply IH; [lia|]. left. lia. }
+        unfold deliver. destruct (choose e); cbn [negb app map].
+        2:{ exact Hhead. }
+        destruct (ktl_rest_ok (e_key e) (e :: r)) as (taken & Ht & Hk).
+        destruct (ktl (e_key e) (e :: r)) as [ol rest] eqn:Ek. cbn [fst snd] in *.
+        assert (Hrest: produce ktl choose right f rest (e_key e)
+                       = map snd (produce_k right r (e_key e))).
+        { destruct taken as [|t0 taken'].
+          - cbn in Ht. subst rest. exact Hhead.
+          - cbn in Ht. injection Ht as <- Hr. subst r.
+            inversion Hk as [|? ? _ Hk']; subst.
+            rewrite produce_k_skip by exact Hk'.
+            apply IH.
+            + rewrite app_length in Hn. lia.
+            + left. rewrite app_length in Hf1. lia. }
+        destruct ol as [[|x l]|]; cbn [map snd app]; rewrite Hrest; reflexivity.
+  Qed.
+
+  Lemma produce_is_produce_k right its :
+    produce ktl choose right (produce_fuel its) its [] = map snd (produce_k right its []).
+  Proof.
+    apply (produce_fuel_enough right (length its)); [lia|]. left. unfold produce_fuel. lia.
+  Qed.
+
+  (* ---- two adjacent ranges deliver what the union range delivers ---- *)
+  Lemma produce_k_prev_irrelevant right e r p1 p2 :
+    bytes_eqb (e_key e) p1 = false -> bytes_eqb (e_key e) p2 = false ->
+    produce_k right (e :: r) p1 = produce_k right (e :: r) p2.
+  Proof. intros H1 H2. cbn [produce_k]. now rewrite H1, H2. Qed.
+
+  Lemma past_right_nil k : past_right [] k = false.
+  Proof. reflexivity. Qed.
+
+  Lemma past_right_spec right k : right <> [] ->
+    past_right right k = negb (key_lt k right).
+  Proof. unfold past_right, key_lt. destruct right; [congruence|]. intros _. now destruct (lex_cmp k (n :: right)). Qed.
+
+  Lemma split_two (k right : bytes) : k <> [] ->
+    (right = [] \/ lex_cmp k right <> Gt) ->
+    forall J prev,
+    no_empty_key J -> (prev = [] \/ lex_cmp prev k = Lt) ->
+    produce_k k J prev ++ produce_k right (drop_while (fun e => key_lt (e_key e) k) J) []
+    = produce_k right J prev.
+  Proof.
+    intros Hk Hr. induction J as [|e r IH]; intros prev Hne Hp; [reflexivity|].
+    inversion Hne as [|? ? He Hne']; subst.
+    cbn [drop_while]. destruct (key_lt (e_key e) k) eqn:Elt.
+    - (* the item belongs to the first range *)
+      cbn [produce_k]. destruct (bytes_eqb (e_key e) prev) eqn:Ep; [now apply IH|].
+      rewrite (past_right_spec k) by exact Hk. rewrite Elt. cbn [negb].
+      assert (Hpr: past_right right (e_key e) = false).
+      { destruct Hr as [->|Hr]; [reflexivity|].
+        destruct right as [|b right']; [reflexivity|]. rewrite past_right_spec by discriminate.
+        unfold key_lt in *. destruct (lex_cmp (e_key e) k) eqn:E; try discriminate.
+        rewrite (lex_lt_le_trans _ _ _ E Hr). reflexivity. }
+      rewrite Hpr. rewrite <- app_assoc. f_equal. apply IH; auto.
+      right. unfold key_lt in Elt. now destruct (lex_cmp (e_key e) k).
+    - (* first key at or beyond k: the first range stops, the second starts here *)
+      assert (Ep: bytes_eqb (e_key e) prev = false).
+      { destruct (bytes_eqb (e_key e) prev) eqn:E; auto. apply bytes_eqb_eq in E.
+        destruct Hp as [->|Hp]; [congruence|]. subst prev. unfold key_lt in Elt. now rewrite Hp in Elt. }
+      assert (En: bytes_eqb (e_key e) [] = false).
+      { destruct (bytes_eqb (e_key e) []) eqn:E; auto. apply bytes_eqb_eq in E. congruence. }
+      replace (produce_k k (e :: r) prev) with (@nil (bytes * list entry)).
+      + cbn [app]. apply produce_k_prev_irrelevant; auto.
+      + cbn [produce_k]. rewrite Ep. rewrite (past_right_spec k) by exact Hk. now rewrite Elt.
+  Qed.
+End ProduceProofs.
